@@ -21,6 +21,7 @@ import (
 	"io"
 	"net"
 	"os"
+	"reflect"
 	"regexp"
 	"runtime"
 	"sort"
@@ -30,11 +31,13 @@ import (
 	"sync/atomic"
 	"testing"
 	"time"
+	"unsafe"
 
 	"github.com/hashicorp/yamux"
 	"go.temporal.io/server/api/adminservice/v1"
 	"go.temporal.io/server/common/log"
 	"google.golang.org/grpc"
+	"google.golang.org/grpc/connectivity"
 	"google.golang.org/grpc/metadata"
 	"google.golang.org/grpc/stats"
 	"google.golang.org/grpc/status"
@@ -61,6 +64,7 @@ type vccSched struct {
 	N     int      `json:"n"`
 	Burst int      `json:"burst"`
 	Bg    bool     `json:"bg"`
+	Idle  bool     `json:"idle"` // the schedule has Idle commands: the client connection gets a short gRPC idle timeout
 	Cmds  []vccCmd `json:"cmds"`
 }
 
@@ -418,7 +422,13 @@ func (h *vccHarness) reset(sc *vccSched) {
 		h.wait = h.fullWait
 	}
 	logger := log.NewNoopLogger()
-	mcc, err := grpcutil.NewMultiClientConn(h.ctx, fmt.Sprintf("vcc-%d", h.run), grpcutil.MakeDialOptions(nil, metrics.GRPCOutboundClientMetrics)...)
+	opts := grpcutil.MakeDialOptions(nil, metrics.GRPCOutboundClientMetrics)
+	if sc.Idle {
+		// production leaves gRPC's idle timeout at its default (30 min); a schedule that lets the channel go idle gets a
+		// short one through the same variadic options NewMultiClientConn hands to grpc.NewClient
+		opts = append(opts, grpc.WithIdleTimeout(150*time.Millisecond))
+	}
+	mcc, err := grpcutil.NewMultiClientConn(h.ctx, fmt.Sprintf("vcc-%d", h.run), opts...)
 	if err != nil {
 		panic(err)
 	}
@@ -705,6 +715,14 @@ func (h *vccHarness) exec(cmd vccCmd, idx int) bool {
 			for !vccDialHangs() && time.Now().Before(dl) {
 				time.Sleep(200 * time.Microsecond)
 			}
+		}
+	case "Idle":
+		// nobody calls until gRPC has put the channel into IDLE (it drops resolver, balancer and transports); the next
+		// call makes it rebuild them from what the resolver was last given
+		h.log(map[string]interface{}{"ev": "Cmd", "a": "Idle", "k": 0})
+		cc := (*grpc.ClientConn)(unsafe.Pointer(reflect.ValueOf(h.mcc).Elem().FieldByName("clientConn").Pointer()))
+		if !h.poll(func() bool { return cc.GetState() == connectivity.Idle }) {
+			return false // the harness did not get the channel idle (e.g. a call is still in flight)
 		}
 	case "Reset":
 		// the peer loses the gRPC transport of session K: the yamux STREAM(s) its server accepted are closed, the session
